@@ -95,15 +95,23 @@ def differential(ctx, hb, mexe, pid, classify):
                    "input": _show_input(cs[5]), "input_hex": cs[5], "sonic": r[1] + " " + r[7][:400], "encoding_json": r[3] + " " + r[8][:400],
                    "tags": r[6]}
         # ---- the property's oracle: sonic vs encoding/json
+        mr = mod.get(r[0])
         if r[5] in ("errdiff", "valdiff", "crash"):
             fid = classify(r)
+            # a listed finding excuses a divergence only when the real decoder did what the faithful model of that finding
+            # says it does: an input of a finding's class on which sonic behaves differently from the model is a new defect
+            if fid and mr and len(mr) >= 11 and mr[1] in ("O", "E") and "unterm32" not in r[6].split(","):
+                if mr[1] != r[1] or (mr[1] == "O" and mr[2] != r[2]):
+                    payload["classified_as"] = fid
+                    payload["model_sonic_bind"] = mr[1] + " " + mr[2][:400]
+                    payload["why_not_excused"] = "the input is in the class of a listed finding, but the real decoder's outcome differs from the model of that finding"
+                    fid = None
             if fid:
                 rep["known"][fid] += 1
             else:
                 payload["verdict"] = r[5]
                 rep["oracle_bad"].append(payload)
         # ---- model ties
-        mr = mod.get(r[0])
         if mr and len(mr) >= 11:
             for side, mi, ri in (("S", 1, 1), ("J", 3, 3), ("I", 9, 1)):
                 mstat[side + ":" + mr[mi]] += 1
@@ -114,7 +122,7 @@ def differential(ctx, hb, mexe, pid, classify):
                 if mr[mi] == "X" or mr[mi] != real_st or (mr[mi] == "O" and mr[mi + 1] != real_v):
                     # cases of the finding classes the tree model cannot express are not part of the tie
                     tg = set(r[6].split(","))
-                    if side == "S" and ("unterm32" in tg or "arrcomma" in tg):
+                    if side == "S" and "unterm32" in tg:
                         continue
                     if side == "I" and "unterm32" in tg:
                         continue  # the native scanner defect is below the IL
@@ -296,6 +304,33 @@ def backends(ctx, hb, classify, mexe=None):
     n = 0
     seen = set()
     nontrivial = 0
+    # ---- the model (sonic_bind Jit / Opt / OptFast) on the same cases
+    mod = {}
+    if mexe and os.path.exists(model) and not ctx.replay:
+        mres = os.path.join(work, "mres.tsv")
+        rc, out = c.sh("%s c11 < %s > %s" % (mexe, model, mres), timeout=3000, check=False)
+        if rc != 0:
+            rep["problems"].append(("T", "model driver failed: " + out[-800:]))
+        else:
+            mod = {f[0]: f for f in _lines(mres)}
+    skip_tags = {"jit": {"unterm32"}, "opt": {"b64pad", "badutf8"}, "fast": {"b64pad", "badutf8"}}
+    cols = {"jit": 1, "opt": 5, "fast": 7}
+
+    def tie(name, r):
+        """None: the case is not part of the tie for this back end; else whether the process did what the model says."""
+        m = mod.get(r[0])
+        col = cols[name]
+        if not m or len(m) < 9 or len(r) < 8 or m[col] == "U":
+            return None
+        tg = set(r[4].split(","))
+        if r[1] == "P" and tg & skip_tags[name]:
+            return None
+        if name == "jit" and tg & skip_tags["jit"]:
+            return None
+        if name != "jit" and "badutf8" in tg:
+            return None  # optdec re-parses the rewritten buffer: panics, and raw text taken after in-place unescaping
+        return not (m[col] != r[1] or (m[col] == "O" and m[col + 1] != r[7]))
+
     for a, b, f in zip(outs["jit"], outs["opt"], outs["fast"]):
         if len(a) < 7 or len(b) < 7 or len(f) < 7:
             continue
@@ -325,10 +360,12 @@ def backends(ctx, hb, classify, mexe=None):
                 kinds.append("of")
         for k in kinds:
             fid = classify(k, tags, a[1], b[1], f[1])
-            if fid:
+            off = [nm for nm, rr in (("jit", a), ("opt", b), ("fast", f)) if tie(nm, rr) is False] if fid else []
+            if fid and not off:
                 rep["known"][fid] += 1
             else:
-                rep["bad"].append({"kind": k, "case_line": "\t".join(cs), "config": cs[1], "type": cs[3], "initial": cs[4],
+                # a listed finding excuses a divergence only when every process did what the model of that finding says
+                rep["bad"].append({"kind": k, "classified_as": fid, "processes_off_model": off, "case_line": "\t".join(cs), "config": cs[1], "type": cs[3], "initial": cs[4],
                                    "input": _show_input(cs[5]), "input_hex": cs[5], "tags": tags, "valid_json": valid, "structure": structural,
                                    "jit": a[1] + " " + a[2][:300] + " " + a[3][:160], "optdec": b[1] + " " + b[2][:300] + " " + b[3][:160],
                                    "optdec_fastmap": f[1] + " " + f[2][:300] + " " + f[3][:160]})
@@ -336,32 +373,19 @@ def backends(ctx, hb, classify, mexe=None):
     # ---- model ties: sonic_bind Jit / Opt / OptFast against the three processes
     rep["tie_bad"] = []
     rep["tied"] = collections.Counter()
-    if mexe and os.path.exists(model) and not ctx.replay:
-        mres = os.path.join(work, "mres.tsv")
-        rc, out = c.sh("%s c11 < %s > %s" % (mexe, model, mres), timeout=3000, check=False)
-        if rc != 0:
-            rep["problems"].append(("T", "model driver failed: " + out[-800:]))
-        else:
-            mod = {f[0]: f for f in _lines(mres)}
-            skip_tags = {"jit": {"unterm32", "arrcomma"}, "opt": {"b64pad", "badutf8"}, "fast": {"b64pad", "badutf8"}}
-            for name, col in (("jit", 1), ("opt", 5), ("fast", 7)):
-                for r in outs[name]:
-                    m = mod.get(r[0])
-                    if not m or len(m) < 9 or len(r) < 8 or m[col] == "U":
-                        continue
-                    tg = set(r[4].split(","))
-                    if r[1] == "P" and tg & skip_tags[name]:
-                        continue
-                    if name == "jit" and tg & skip_tags["jit"]:
-                        continue
-                    if name != "jit" and "badutf8" in tg:
-                        continue  # optdec re-parses the rewritten buffer: panics, and raw text taken after in-place unescaping
-                    rep["tied"][name] += 1
-                    if m[col] != r[1] or (m[col] == "O" and m[col + 1] != r[7]):
-                        cs = case_by_id[r[0]]
-                        rep["tie_bad"].append({"backend": name, "case_line": "\t".join(cs), "config": cs[1], "type": cs[3], "initial": cs[4],
-                                               "input": _show_input(cs[5]), "tags": r[4], "model": m[col] + " " + m[col + 1][:300],
-                                               "real": r[1] + " " + r[7][:300] + " " + r[3][:120]})
+    for name in ("jit", "opt", "fast"):
+        col = cols[name]
+        for r in outs[name]:
+            t = tie(name, r)
+            if t is None:
+                continue
+            rep["tied"][name] += 1
+            if not t:
+                m = mod[r[0]]
+                cs = case_by_id[r[0]]
+                rep["tie_bad"].append({"backend": name, "case_line": "\t".join(cs), "config": cs[1], "type": cs[3], "initial": cs[4],
+                                       "input": _show_input(cs[5]), "tags": r[4], "model": m[col] + " " + m[col + 1][:300],
+                                       "real": r[1] + " " + r[7][:300] + " " + r[3][:120]})
     return rep
 
 
